@@ -875,6 +875,8 @@ class ExprMixin:
         if hit is not None:
             return st, y, m, d
         st = st.add(*T.decomposition_facts(ordv))
+        for (other, _, _, _) in st.ymd.values():          # lemma ORD-LEX, one instance per pair of decomposed ordinals
+            st = st.add(*T.ord_lex_instance(other, ordv))
         st.ymd = dict(st.ymd)
         st.ymd[ordv.get_id()] = (ordv, y, m, d)
         return st, y, m, d
